@@ -23,7 +23,6 @@ vars == <<P, K, wf, pc>>
 
 Patterns == IF Uneven THEN {<<1>>, <<1, 2>>, <<3, 1>>} ELSE {<<1>>}
 XOf(pat, n) == [k \in 1..n |-> IF k = 1 THEN 0 ELSE SeqSum([g \in 1..(k-1) |-> pat[((g-1) % Len(pat)) + 1]])]
-Curves == UNION { { [k \in 1..n |-> <<XOf(pat, n)[k], ys[k]>>] : ys \in [1..n -> 0..YMax] } : n \in 2..NMax, pat \in Patterns }
 KneeSets(n) == IF n <= FullN THEN SUBSET (0..(n-1))
                ELSE {s \in SUBSET (0..(n-1)) : Cardinality(s) <= 2 \/ s = 0..(n-1)}
                     \cup {{k \in 0..(n-1) : k % 2 = 0}, {k \in 0..(n-1) : k % 2 = 1}, 1..(n-2)}
@@ -34,7 +33,9 @@ BaseT == {Q(0, 1), Q(1, 4), Q(1, 3), Q(1, 2), Q(1, 1)}
 IoUs == {CornerIoU(P, k) : k \in 1..(N-2)}
 Thresholds == SetToSeq(BaseT \cup {q \in IoUs : \A b \in BaseT : ~QEq(q, b)})
 
-Init == /\ P \in Curves
+\* tight nested choice: no set of curves is built (a UNION of thousands of sequences is quadratic in TLC)
+Init == /\ \E n \in 2..NMax : \E pat \in (IF n > FullN THEN {<<1>>} ELSE Patterns) : \E ys \in [1..n -> 0..YMax] :
+              P = [k \in 1..n |-> <<XOf(pat, n)[k], ys[k]>>]
         /\ \E s \in KneeSets(Len(P)) : K = SortedSeqOf(s)
         /\ wf = WFInit(HeightsOf(P), K)
         /\ pc = "run"
